@@ -93,4 +93,7 @@ def MATCH(
             return i or xlerrors.NaExcelError(
                 "No greater value found."
             )
+    if lookup_array and (match_type == 1 or match_type == -1):
+        # The lookup value lies beyond the last element: that one matches.
+        return len(lookup_array)
     return xlerrors.NaExcelError("No match found.")
